@@ -120,13 +120,13 @@ def valid_bases(lp, rng, limit):
 def small_lps(rng, quick):
     lps = []
     ex = list(itertools.islice(gen.exhaustive_small(1, 2), 0, None, 97 if quick else 11))
-    lps += [("exhaustive 1x2", lp) for lp in ex[: 150 if quick else 4000]]
+    lps += [("exhaustive 1x2", lp) for lp in ex[: 150 if quick else 1500]]
     ex = list(itertools.islice(gen.exhaustive_small(2, 1), 0, None, 29 if quick else 3))
-    lps += [("exhaustive 2x1", lp) for lp in ex[: 100 if quick else 3000]]
-    for _ in range(150 if quick else 2500):
+    lps += [("exhaustive 2x1", lp) for lp in ex[: 100 if quick else 1200]]
+    for _ in range(150 if quick else 1000):
         m, n = rng.rint(1, 3), rng.rint(1, 4)
         lps.append(("random small", gen.random_lp(rng, m=m, n=n, dens=0.8)))
-    for _ in range(40 if quick else 600):
+    for _ in range(40 if quick else 300):
         lp = gen.random_lp(rng, m=rng.rint(2, 4), n=rng.rint(2, 5), dens=0.7, coef="mixed" if rng.chance(0.5) else "small")
         lps.append(("random rational", lp))
     # bound patterns where one bound is exactly 0 and the other is not (and fixed at a non-zero value): the places where
@@ -158,7 +158,7 @@ def run(pid, tier, seed):
     lps = small_lps(rng.fork("small"), quick)
     jobs = []
     for kind, lp in lps:
-        bases = valid_bases(lp, rng.fork(lp.line()), 40 if quick else 400)
+        bases = valid_bases(lp, rng.fork(lp.line()), 40 if quick else 150)
         if not bases:
             continue
         lines = ["new 0 " + lp.line(), "dumpilp 0"]
@@ -233,14 +233,14 @@ def run(pid, tier, seed):
             ev.stat("dobj-written-when-infeasible")
 
     # ------------------------------------------------------------- (b) returned bases
-    rlps = lpfam.mixed(rng.fork("mixed"), 80 if quick else 1200)
+    rlps = lpfam.mixed(rng.fork("mixed"), 80 if quick else 600)
     rlps += [("random 10", gen.random_lp(rng, m=rng.rint(4, 10), n=rng.rint(4, 10), dens=0.5)) for _ in range(20 if quick else 300)]
     rlps = [(k, lp) for k, lp in rlps if lp.rows and lp.cols and all(F(r[2]) >= 0 for r in lp.rows)
             and all(c[1] == NINF or c[2] == INF or F(c[1]) <= F(c[2]) for c in lp.cols)]
     jobs = []
     for kind, lp in rlps:
         r = rng.fork("cfg" + lp.line())
-        for _ in range(2 if quick else 6):
+        for _ in range(2 if quick else 4):
             entry = r.choice(["exact primal", "exact dual", "primal", "dual"])
             pp, dp, sc = r.choice([1, 2, 3, 4]), r.choice([6, 7, 8, 9]), r.choice([0, 1])
             lines = ["new 0 " + lp.line(), "setparam 0 0 %d" % pp, "setparam 0 2 %d" % dp, "setparam 0 7 %d" % sc]
@@ -312,6 +312,21 @@ def run(pid, tier, seed):
             continue
         x, s, y = bs
         rx, rpi, robj = proto.get(sb, "x"), proto.get(sb, "pi"), proto.get(sb, "objval")
+        # the reported vectors have to be *the* basic solution only where the optimum is unique: a dual non-degenerate basis
+        # (every non-basic, non-fixed column has a non-zero reduced cost) pins down x, a primal non-degenerate one (every basic
+        # column strictly between its bounds) pins down pi.  Otherwise the reported pair may be another optimal pair (the exact
+        # solver returns the verified floating-point solution, not necessarily the basic one) - feasibility, optimality and the
+        # objective of the basic solution are checked below through the verdict model.
+        z = list(x) + list(s)
+        dz = [cols[k][3] - sum((a * y[i] for i, a in cols[k][0].items()), F(0)) for k in range(nc + nr)]
+        st = cs + rs
+        dual_nondeg = all(st[k] == "1" or cols[k][1] == cols[k][2] or dz[k] != 0 for k in range(nc + nr))
+        primal_nondeg = all(st[k] != "1" or (z[k] != cols[k][1] and z[k] != cols[k][2]) for k in range(nc + nr))
+        ev.stat("returned:%s%s" % ("dual-nondeg " if dual_nondeg else "dual-degenerate ", "primal-nondeg" if primal_nondeg else "primal-degenerate"))
+        if not dual_nondeg:
+            rx = None
+        if not primal_nondeg:
+            rpi = None
         if rx is not None and [q2s(v) for v in x] != rx[1:]:
             rep.violation("the exact basic solution of the returned basis differs from the reported x (%s): basis gives %s, reported %s" %
                           (tag, " ".join(q2s(v) for v in x)[:200], " ".join(rx[1:])[:200]), ctx, signature={"symptom": "x-differs", "entry": entry})
